@@ -322,7 +322,11 @@ func cmdReplay(args []string) int {
 		fmt.Println("harness not found in checks.json:", rf.Harness)
 		return 2
 	}
-	ov, err := harnessOverlay(verifDir(), map[string]string{relOf(ent.Pkg): ent.Harness})
+	hd := map[string]string{relOf(ent.Pkg): ent.Harness}
+	for k, v := range ent.Overlays {
+		hd[k] = v
+	}
+	ov, err := harnessOverlay(verifDir(), hd)
 	if err != nil {
 		fmt.Println(err)
 		return 2
